@@ -1058,7 +1058,23 @@ func vh03RenSeq(t *testing.T, o *vhOut, id int, r *rand.Rand, version int, nstep
 		newName := "y" + vh03Name(r)
 		var st map[string]interface{}
 		var cerr error
-		switch r.Intn(6) {
+		op := r.Intn(6)
+		// half of the renames to a new entry go to a name the client has LOOKED AT before (walked to and
+		// clunked again, outside the recording): the server then still knows a path node for that name with
+		// no fid under it, and the rename must behave exactly as for a name it never heard of
+		if op >= 3 && r.Intn(2) == 0 {
+			dir, nm := h[b], newName
+			if op == 4 {
+				dir = h[oth]
+			} else if op == 5 {
+				dir, nm = h[oth], curName
+			}
+			if _, vf, verr := dir.Walk([]string{nm}); verr == nil {
+				vf.Close()
+			}
+			take()
+		}
+		switch op {
 		case 0: // onto its own name, the directory named through two different handles
 			cerr = h[a].RenameAt(curName, h[b], curName)
 			st = map[string]interface{}{"op": "renameat", "d": a, "old": vhBytes([]byte(curName)), "d2": b, "new": vhBytes([]byte(curName))}
